@@ -248,13 +248,29 @@ pub fn run_record(id: &str, cfg: &Cfg, pcm: &Pcm, mode: &str, src: &str, with_or
             let verify_ok = stream.verify().is_ok();
             let count = stream.count_bits();
             let o = oracles(&c2, &p2, &stream, &bytes);
-            (bytes, verify_ok, count, o, log)
+            // C14: the same audio delivered the other way (integers <-> packed bytes)
+            let other = match s2.as_str() {
+                "mem" | "nohint" => "bytes",
+                "bytes" => "mem",
+                _ => "nohint",
+            };
+            let o14 = match encode(&c2, &p2, &m2, other) {
+                Ok(st2) => {
+                    if stream_bytes(&st2) == bytes {
+                        "ok".to_string()
+                    } else {
+                        format!("fail:bytes_differ_between_{}_and_{}", s2, other)
+                    }
+                }
+                Err(e) => format!("fail:other_delivery_errors_{e}"),
+            };
+            (bytes, verify_ok, count, o, log, o14)
         })
     });
     match res {
-        Err(m) => format!("{head} impl=panic msg={m} o_c01=fail:panic o_c03=fail:panic o_c04=fail:panic o_c09=fail:panic"),
-        Ok(Err(e)) => format!("{head} impl=err:{e} o_c01=fail:error_{e} o_c03=fail:error o_c04=fail:error o_c09=fail:error"),
-        Ok(Ok((bytes, verify_ok, count, (o1, o3, o4, o9), log))) => {
+        Err(m) => format!("{head} impl=panic msg={m} o_c01=fail:panic o_c03=fail:panic o_c04=fail:panic o_c09=fail:panic o_c14=fail:panic"),
+        Ok(Err(e)) => format!("{head} impl=err:{e} o_c01=fail:error_{e} o_c03=fail:error o_c04=fail:error o_c09=fail:error o_c14=fail:error"),
+        Ok(Ok((bytes, verify_ok, count, (o1, o3, o4, o9), log, o14))) => {
             let mut olog = String::new();
             for ev in &log {
                 match ev {
@@ -271,7 +287,7 @@ pub fn run_record(id: &str, cfg: &Cfg, pcm: &Pcm, mode: &str, src: &str, with_or
             }
             let olog = if with_oracle_log { format!(" olog={olog}") } else { String::new() };
             format!(
-                "{head} impl=ok impl_verify={} impl_count={} impl_bytes={}{olog} o_c01={o1} o_c03={o3} o_c04={o4} o_c09={o9}",
+                "{head} impl=ok impl_verify={} impl_count={} impl_bytes={}{olog} o_c01={o1} o_c03={o3} o_c04={o4} o_c09={o9} o_c14={o14}",
                 verify_ok as u8, count, hex(&bytes)
             )
         }
